@@ -119,6 +119,7 @@ func c04canonical(rng *core.Rng, n int) []c04session {
 	all := []c04session{
 		{Name: "copy-binary-lying-containers", Msgs: cat([][]byte{start, pg.Query("copya in"), pg.CopyData(abin), pg.CopyDone(), pg.Query("select 1"), pg.Terminate()})},
 		{Name: "bind-lying-containers", Msgs: cat([][]byte{start, pg.Parse("s", "select $1 $2", nil), pg.Bind("p", "s", []int16{1}, [][]byte{lyingArray, lyingRanges}, nil), pg.Execute("p", 0), pg.Sync(), pg.Terminate()})},
+		{Name: "copy-binary-declared-field-of-200MB", Msgs: cat([][]byte{start, pg.Query("copyb in"), pg.CopyData(append(append(append([]byte{}, c14header...), 0, 2), be(200000000)...)), pg.CopyData([]byte("only a few bytes of it ever arrive")), pg.CopyDone(), pg.Query("select 1"), pg.Terminate()})},
 		{Name: "parse-more-types-than-parameters", Msgs: cat([][]byte{start, pg.Parse("s", "select $1", []uint32{25, 0, 23, 1043, 0, 20}), pg.Describe('S', "s"), pg.Bind("p", "s", nil, [][]byte{[]byte("1")}, nil), pg.Execute("p", 0), pg.Sync(),
 			pg.Parse("", "select 1", []uint32{0, 0, 23}), pg.Describe('S', ""), pg.Sync(), pg.Terminate()})},
 		{Name: "simple", Msgs: cat([][]byte{start, pg.Query("select $1 ?"), pg.Terminate()})},
@@ -172,7 +173,7 @@ func (ch c04) Run(c *core.Ctx) {
 	envTLS := hs.Start(hs.Parse, wire.MessageBufferSize(c04L), wire.TLSConfig(hs.ServerTLS()))
 	envs := c04envs{plain: hs.Start(hs.Parse, wire.MessageBufferSize(c04L)), auth: hs.Start(hs.Parse, wire.MessageBufferSize(c04L), wire.SessionAuthStrategy(wire.ClearTextPassword(c04validator)))}
 	nb := ch.Batches(c.Tier)
-	ncanon, nmut := 18, 2500
+	ncanon, nmut := 19, 2500
 	if c.Tier == "thorough" {
 		ncanon, nmut = 40, 400000
 	}
@@ -548,7 +549,7 @@ func c04mutate(rng *core.Rng, msgs [][]byte) ([][]byte, string) {
 	}
 	i := rng.Intn(len(out))
 	m := out[i]
-	vals := []uint32{0, 1, 3, 4, 5, 0x7fffffff, 0x80000000, 0xffffffff, 0xfffffffe, c04L + 4, c04L + 5, 65535, 65536}
+	vals := []uint32{0, 1, 3, 4, 5, 0x7fffffff, 0x80000000, 0xffffffff, 0xfffffffe, c04L + 4, c04L + 5, 65535, 65536, 0x00ffffff, 0x0bebc200, 0x3fffffff}
 	switch k := rng.Intn(13); k {
 	case 11, 12: // a well-framed Bind whose three counts are independent of each other (fewer / more format codes than values)
 		nf, nv, nr := rng.Intn(6), rng.Intn(6), rng.Intn(6)
